@@ -68,6 +68,11 @@ pub(super) enum Action {
 
     /// Generic action with no specialized dependencies on access.
     Opaque,
+
+    /// Non-blocking attempt to acquire a lock (`try_lock`, `try_read`,
+    /// `try_write`). A thread about to make such an attempt is never disabled
+    /// by the lock being held: the attempt simply fails.
+    Try,
 }
 
 macro_rules! objects {
@@ -385,6 +390,10 @@ impl<T: Object<Entry = Entry>> Ref<T> {
 
     pub(super) fn branch_opaque(self, location: Location) {
         self.branch_action(Action::Opaque, location)
+    }
+
+    pub(super) fn branch_try(self, location: Location) {
+        self.branch_action(Action::Try, location)
     }
 
     fn set_action(self, execution: &mut Execution, action: Action, location: Location) {
